@@ -1,5 +1,6 @@
 import Liquid.Scan
 import Liquid.Value
+import Liquid.Compare
 /-!
 # Line-protocol driver (DESIGN §5.1): one case per line in, one canonical result line out.
 -/
@@ -18,4 +19,8 @@ def runCase (line : String) : String :=
     match GoVal.parse v with
     | some x => x.enc
     | none => "unmodelled parse"
+  | ["rel", forms, a, b] => Cmp.runPair Cmp.relOps forms a b
+  | ["con", forms, a, b] => Cmp.runPair [.contains] forms a b
+  | ["tru", form, a] => Cmp.runTruthy form a
+  | "expr" :: e :: vals => Cmp.runExpr e vals
   | _ => "bad-op"
